@@ -51,6 +51,9 @@ class Contract:
         bounded=None,
         ghost_init=None,
         ghost_updates=None,
+        exposes=None,
+        defines=(),
+        exit_asserts=(),
     ):
         self.target = target
         self.params = dict(params or {})
@@ -79,6 +82,9 @@ class Contract:
         self.replay = replay
         self.ghost_init = dict(ghost_init or {})  # ghost local -> (type, initial value expr)
         self.ghost_updates = dict(ghost_updates or {})  # statement anchor -> [(ghost local, new value expr)]
+        self.exposes = dict(exposes or {})  # callee local -> type; visible in ensures as _x_<name> (existential for callers)
+        self.defines = list(defines)  # naming clauses (result == spec_fn(...)): assumed by callers, not checked
+        self.exit_asserts = list(exit_asserts)  # cuts: proved from the path condition at exit, then used for the ensures
         self.bounded = bounded  # reason string: contract kept for run-time monitors only (not proved)
         self.out_params = dict(out_params or {})  # param name -> spec of its value at exit (in-place mutation)
 
@@ -111,3 +117,20 @@ def contract(target, **kw):
 
 def fields(d):
     REG.field_types.update(d)
+
+
+class SpecLemma:
+    """a lemma over the contract vocabulary: proved once in an arbitrary state (symbolic heap), instantiated by name
+    inside contract clauses as  name(args)  ==  (requires => ensures)[args]"""
+
+    def __init__(self, name, params, requires, ensures, props=()):
+        self.name = name
+        self.params = dict(params)
+        self.requires = list(requires)
+        self.ensures = list(ensures)
+        self.props = list(props)
+
+
+def lemma(name, **kw):
+    REG.lemmas[name] = SpecLemma(name, **kw)
+    return REG.lemmas[name]
